@@ -27,6 +27,12 @@ type modSet struct {
 	fresh  map[string]string       // components changed only at freshly allocated references
 	topFn  *ssa.Function           // the function whose code is scanned at depth 0
 	subst  map[ssa.Value]ssa.Value // free variable of a nested closure -> value bound to it
+	// slices held in captured variables that the scanned code never assigns:
+	// component -> the variables (their cells); only that slice's region changes
+	sliceCells map[string][]ssa.Value
+	// closures called through a value defined before the loop: resolved (and
+	// their bodies scanned) when the mod set is applied
+	cloCalls map[ssa.Value]bool
 }
 
 func newModSet() *modSet {
@@ -54,6 +60,27 @@ func (ms *modSet) addFresh(c, s string) {
 func (e *Engine) addCompWhole(ms *modSet, c, s string) {
 	ms.comps[c] = s
 	delete(ms.fields, c)
+	delete(ms.sliceCells, c)
+}
+
+// storesToCell: does fn (or a function literal nested in it) assign the
+// captured variable whose cell is v?
+func storesToCell(fn *ssa.Function, v ssa.Value) bool {
+	for _, b := range fn.Blocks {
+		for _, in := range b.Instrs {
+			if st, ok := in.(*ssa.Store); ok && st.Addr == v {
+				return true
+			}
+			if mc, ok := in.(*ssa.MakeClosure); ok {
+				for _, bd := range mc.Bindings {
+					if bd == v {
+						return true // escapes into another closure: give up
+					}
+				}
+			}
+		}
+	}
+	return false
 }
 
 // rootAddr walks FieldAddr/IndexAddr chains back to their base.
@@ -159,6 +186,18 @@ func (e *Engine) scanStoreTarget(addr ssa.Value, li *loopInfo, ms *modSet, inCal
 		c, s := e.elemComp(sl.Elem())
 		// only the region of that slice changes when the slice value itself
 		// is loop-invariant (addField falls back to the whole component)
+		if u, ok := b.X.(*ssa.UnOp); ok && u.Op == token.MUL && !inCallee {
+			if fv, ok := u.X.(*ssa.FreeVar); ok && fv.Parent() == ms.topFn && !storesToCell(ms.topFn, fv) {
+				if _, whole := ms.comps[c]; !whole {
+					if ms.sliceCells == nil {
+						ms.sliceCells = map[string][]ssa.Value{}
+					}
+					ms.sliceCells[c] = append(ms.sliceCells[c], fv)
+					ms.fsort[c] = s
+				}
+				return
+			}
+		}
 		e.addField(ms, c, s, b.X, li, inCallee)
 		return
 	}
@@ -358,6 +397,15 @@ func (e *Engine) scanCallMods(call *ssa.CallCommon, li *loopInfo, ms *modSet, de
 	}
 	if fn == nil && e.curContract != nil && e.curContract.FnParamPure[fnParamName(call.Value)] {
 		return // assumed effect-free (fnparam ... pure)
+	}
+	if fn == nil && depth == 0 && li != nil && definedOutside(call.Value, li) {
+		if _, isSig := call.Value.Type().Underlying().(*types.Signature); isSig {
+			if ms.cloCalls == nil {
+				ms.cloCalls = map[ssa.Value]bool{}
+			}
+			ms.cloCalls[call.Value] = true
+			return
+		}
 	}
 	if fn == nil {
 		ms.all = true
@@ -663,6 +711,30 @@ func (e *Engine) applyModSet(st *State, ms *modSet, resolve func(ssa.Value) *Val
 	}
 	for g := range ms.ghosts {
 		e.ghostHavoc(st, g)
+	}
+	for c, cells := range ms.sliceCells {
+		if _, whole := ms.comps[c]; whole {
+			continue
+		}
+		sort := ms.fsort[c]
+		h := e.heapGet(st, c, sort)
+		inner := strings.TrimSuffix(strings.TrimPrefix(sort, "(Array Int "), ")")
+		for _, cv := range cells {
+			pv := resolve(cv)
+			cur := e.load(st, e.addrOf(pv))
+			fv := e.freshName("loop$" + strings.Trim(c, "|"))
+			st.declare(fv, inner)
+			h = sx("store", h, sx("sl_reg", cur), fv)
+		}
+		e.heapSet(st, c, sort, h)
+	}
+	for cv := range ms.cloCalls {
+		if r := resolveOpt(resolve, cv); r != nil && r.Clo != nil {
+			e.closureHavoc(st, r.Clo)
+		} else {
+			e.havocAllKeepPrivate(st)
+			st.taint["loop havoc all: call through an unresolved function value"] = true
+		}
 	}
 }
 
